@@ -117,6 +117,7 @@ impl Prop for SurfacePresence {
         cfg.backends = false;
         cfg.enums = false;
         cfg.ext_vals = false;
+        cfg.alias_types = 4;
         let (prog, _, _) = gen_prog(t, cfg);
         crate::checks::l2common::Case { prog, w }
     }
